@@ -242,7 +242,7 @@ MintRule(c) ==
 OverCapacity(c, L, a) ==
     CASE c.asset = "BTC" -> a.g > 0 \/ a.h > 0 \/ a.p > 0      \* (P is above the Bitcoin capacity)
                             \/ AmtCmp(AmtAdd(a, L.bal), Amt(0, 0, 1, 0, 0)) >= 0
-      [] c.asset = "XIN" -> a.g > 0 \/ a.h > 0 \/ a.c > 0
+      [] c.asset = "XIN" -> a.g > 0 \/ a.h > 0          \* (a few CAP or P units fit the XIN capacity)
       [] OTHER -> a.g > 0
 
 DepositRule(c, L) ==
